@@ -22,7 +22,49 @@ use crate::rng::Rng;
 pub type DDesc = Descriptor<DefiniteDescriptorKey>;
 
 pub fn parse_descriptor(text: &str) -> Result<Descriptor<DescriptorPublicKey>, String> {
-    Descriptor::<DescriptorPublicKey>::from_str(text).map_err(|e| e.to_string())
+    match Descriptor::<DescriptorPublicKey>::from_str(text) {
+        Ok(d) => Ok(d),
+        Err(e) => {
+            // taproot descriptors whose leaves the string parser refuses for sanity reasons can still
+            // be assembled through the API (from_str_insane leaves + TapTree::combine + Tr::new)
+            if text.starts_with("tr(") && text.ends_with(')') {
+                if let Some(d) = assemble_tr(&text[3..text.len() - 1]) {
+                    return Ok(d);
+                }
+            }
+            Err(e.to_string())
+        }
+    }
+}
+
+fn assemble_tr(body: &str) -> Option<Descriptor<DescriptorPublicKey>> {
+    use miniscript::descriptor::TapTree;
+    let comma = body.find(',')?;
+    let ik = DescriptorPublicKey::from_str(&body[..comma]).ok()?;
+    fn tree(s: &str) -> Option<TapTree<DescriptorPublicKey>> {
+        if s.starts_with('{') && s.ends_with('}') {
+            let inner = &s[1..s.len() - 1];
+            let mut depth = 0i32;
+            for (i, c) in inner.char_indices() {
+                match c {
+                    '{' | '(' => depth += 1,
+                    '}' | ')' => depth -= 1,
+                    ',' if depth == 0 => {
+                        let l = tree(&inner[..i])?;
+                        let r = tree(&inner[i + 1..])?;
+                        return TapTree::combine(l, r).ok();
+                    }
+                    _ => {}
+                }
+            }
+            None
+        } else {
+            let ms = miniscript::Miniscript::<DescriptorPublicKey, miniscript::Tap>::from_str_insane(s).ok()?;
+            Some(TapTree::leaf(ms))
+        }
+    }
+    let t = tree(&body[comma + 1..])?;
+    miniscript::descriptor::Tr::new(ik, Some(t)).ok().map(Descriptor::Tr)
 }
 
 pub fn make_definite(d: &Descriptor<DescriptorPublicKey>, index: u32) -> Result<DDesc, String> {
